@@ -9,7 +9,7 @@ ALL = ["C%02d" % i for i in range(1, 20)]
 CHECKS = {
     "C12": ("exploration",
             "bounded exhaustive enumeration of unification problems (holes punched at every position and shift) against reference conversion and scope checks",
-            "Instances are all closed type-directed terms up to 5/6 nodes; patterns are the instance with a hole punched at every position with every shift 0..depth (both argument orders) and with two holes (distinct cells, the same cell twice) at pairs of positions; plus all ordered pairs of the 400/1200 smallest terms and the 160/400 smallest definition groups, hole-free and holed (scope-escape and occurs-check configurations, the latter also chained through an earlier solution: (?0 ?1) against (a[?1] b[?0])), plus holed patterns under contexts with parameters and definitions, plus problems with holes on both sides, plus one hole written at two and three binder depths under every context of up to three parameters / definitions against every choice of context variables. For every success of the real unify: following the solutions terminates, every solution is in scope where its hole was written (the home depth of a hole, depth minus shift, is the same at every copy of it), the filled-in terms are convertible in the reference, the context is untouched.",
+            "Instances are all closed type-directed terms up to 5/6 nodes; patterns are the instance with a hole punched at every position with every shift 0..depth (both argument orders) and with two holes (distinct cells, the same cell twice) at pairs of positions; plus all ordered pairs of the 400/1200 smallest terms and the 160/400 smallest definition groups, hole-free and holed (scope-escape and occurs-check configurations, the latter also chained through an earlier solution: (?0 ?1) against (a[?1] b[?0])), plus holed patterns under contexts with parameters and definitions, plus problems with holes on both sides, plus one hole written at two and three binder depths under every context of up to three parameters / definitions against every choice of context variables, and hole-free pairs of context variables wrapped in nested groups judged against the reference in both directions. For every success of the real unify: following the solutions terminates, every solution is in scope where its hole was written (the home depth of a hole, depth minus shift, is the same at every copy of it), the filled-in terms are convertible in the reference, the context is untouched.",
             "Trusted: reference conversion (fuel-bounded). `false` on a holed pair is never judged (unification is not complete across reduction). F-HOLE-COPY is a known finding attributed through hook H2.",
             "DESIGN.md 6/C12"),
     "C18": ("exploration",
